@@ -29,6 +29,9 @@ import r37_polarcap
 import r38_twinfield
 import r39_broadcast
 import r40_ranges
+import r41_unitonce
+import r42_profilestate
+import r43_selfnorm
 import r06_validate
 import r07_cache
 import r08_toporder
@@ -122,7 +125,7 @@ R26_SCOPES = {
             "phase_equilibria::phase_envelope"),
     "C06": ("state::critical_point",),
     "C07": ("phase_equilibria::stability_analysis",),
-    "C17": ("feos_dft::functional", "feos_dft::convolver", "::dft::", "FunctionalContribution"),
+    "C17": ("feos_dft::functional", "feos_dft::convolver", "::dft::", "FunctionalContribution", "feos_dft::solver", "feos_dft::profile"),
     "C18": ("feos_dft::solver", "feos_dft::profile", "feos_dft::interface", "feos_dft::adsorption", "feos_dft::pdgt"),
 }
 
@@ -173,6 +176,18 @@ def r40(ctx, prop):
     sc = dict(R25_SCOPES)
     sc.update({"C09": ("feos::",), "C14": ("parameter",), "C02": ("feos::", "feos_core::state", "feos_core::cubic")})
     return r40_ranges.run(ctx.F(), sc[prop])
+
+
+def r43(ctx, prop):
+    return r43_selfnorm.run(ctx.F())
+
+
+def r42(ctx, prop):
+    return r42_profilestate.run(ctx.F())
+
+
+def r41(ctx, prop):
+    return r41_unitonce.run(ctx.F())
 
 
 def r38(ctx, prop):
@@ -233,13 +248,13 @@ R25_SCOPES = {
     "C07": ("phase_equilibria::stability_analysis",),
     "C08": ("feos::",),
     "C10": ("ideal_gas",),
-    "C17": ("feos_dft::functional", "feos_dft::convolver", "::dft::", "FunctionalContribution"),
+    "C17": ("feos_dft::functional", "feos_dft::convolver", "::dft::", "FunctionalContribution", "feos_dft::solver", "feos_dft::profile"),
     "C18": ("feos_dft::solver", "feos_dft::profile", "feos_dft::interface", "feos_dft::adsorption", "feos_dft::pdgt"),
     "C20": ("estimator::", "EntropyScaling", "state::residual_properties"),
 }
 
 
-R25_FLOORS = {"C01": 55, "C03": 80, "C04": 110, "C05": 280, "C06": 80, "C07": 20, "C08": 1200, "C10": 45, "C17": 300,
+R25_FLOORS = {"C01": 55, "C03": 65, "C04": 110, "C05": 280, "C06": 80, "C07": 20, "C08": 1200, "C10": 45, "C17": 300,
               "C18": 400, "C20": 180}
 
 
@@ -401,17 +416,17 @@ PROPERTY_RULES = {
     "C10": [r10_selector, r8, r1_idealgas, r3, r19, r25, r29, r10_selconst, r1_guard_idealgas],
     "C14": [r14, r13, r10_identifier, r21, r27, r28, r38, r40],
     "C15": [r15],
-    "C20": [r10_transport, r21, r25, r24, r34, r10_selconst],
+    "C20": [r10_transport, r21, r25, r24, r34, r10_selconst, r41],
     "C01": [r1_all, r2, r7, r8, r4, r25, r24, r26, r28, r29, r39, r40],
-    "C13": [r1_guard, r8, r21, r32, r36],
+    "C13": [r1_guard, r8, r21, r32, r36, r43],
     "C17": [r1_functional, r8, r22, r25, r21, r26, r28, r33, r40],
     "C11": [r9, r7],
-    "C03": [r6, r17, r4, r5, r25, r24, r26, r31, r40],
+    "C03": [r6, r17, r4, r5, r25, r24, r26, r31, r40, r43],
     "C04": [r4, r16, r25, r24, r26, r31, r10_selconst, r40],
-    "C05": [r4, r5, r16, r25, r24, r26, r31, r10_selconst, r39, r40],
+    "C05": [r4, r5, r16, r25, r24, r26, r31, r10_selconst, r39, r40, r43],
     "C06": [r4, r1_all, r21, r25, r24, r26, r28, r31, r39, r40],
-    "C07": [r5, r4, r25, r24, r26, r31, r10_selconst, r40],
-    "C18": [r4, r16, r25, r24, r26, r35, r39, r40],
+    "C07": [r5, r4, r25, r24, r26, r31, r10_selconst, r40, r43],
+    "C18": [r4, r16, r25, r24, r26, r35, r39, r40, r42],
 }
 
 
